@@ -22,7 +22,8 @@ ASSUMPTIONS = ["the SMT solver answers correctly", "the encoding means the syste
                "trait-method names get_signal_at/init_at/unroll/assert/check_sat of SolverContext and TransitionSystemEncoding denote what they say"]
 LEVEL_TEXT = ("Static ordering/pairing/provenance analysis of the BMC driver on all paths: decides the loop-shell clauses that exactness rests on (constraints before query, "
               "step = loop variable over 0..=k_max, verdict provenance, push/pop pairing, same signals in both modes). The pinned tests execute zero lines of this file (no solver offline); "
-              "the rules cover every path of it. Encoding faithfulness and solver correctness are not decided.")
+              "the rules cover every path of it. Encoding faithfulness and solver correctness are not decided."
+              " The SMT-LIB text of every operator (C05's expression-writer clauses) and the encoding clauses (C04) are re-evaluated inside this check because the verdict is only as exact as they are.")
 LEVEL_NOTE = "Structural necessary conditions only; assumes solver correctness and the C04 encoding clauses; names of trait methods are taken at face value."
 TECHNIQUE = "structured dominance + must-pass-through (pairing) analysis and value-provenance rules on rustc HIR facts"
 
